@@ -488,3 +488,188 @@ pub fn run(pid: &'static str, ctx: &Ctx, rep: &mut Report) {
         }
     }
 }
+
+// ---------------------------------------------------------------------------------------------
+// Neighbour-key pairs (C15): state keyed too coarsely.
+//
+// The stateright histories above use three unrelated keys.  Hidden state that is keyed by a *digest* of the key (its
+// length, a prefix, a suffix, its byte multiset, one word of it) only leaks between two instances whose keys collide
+// under that digest.  Here every ordered pair (k, k') with k' from the neighbour set of k is driven through the fixed
+// two-instance history  new(k); use(k); new(k'); use(k'); use(k); clone(k'); use(clone)  and through its mirror image,
+// every observation compared with the reference model for that key.
+
+pub fn neighbours(k: &[u8], lens: &[usize]) -> Vec<(String, Vec<u8>)> {
+    let n = k.len();
+    let mut v: Vec<(String, Vec<u8>)> = Vec::new();
+    let flip = |pos: usize, bit: u8| {
+        let mut x = k.to_vec();
+        x[pos] ^= bit;
+        x
+    };
+    if n > 0 {
+        v.push(("flip bit0 of byte 0".into(), flip(0, 1)));
+        v.push(("flip bit7 of the last byte".into(), flip(n - 1, 0x80)));
+        v.push(("flip bit0 of the last byte".into(), flip(n - 1, 1)));
+        v.push(("flip the middle byte".into(), flip(n / 2, 0x10)));
+        for w in [4usize, 8] {
+            if n >= 2 * w {
+                // same first word / same last word, everything else different
+                let mut a = al::dense(n, 98, w as u64);
+                a[..w].copy_from_slice(&k[..w]);
+                v.push((format!("same first {w} bytes"), a));
+                let mut b = al::dense(n, 99, w as u64);
+                b[n - w..].copy_from_slice(&k[n - w..]);
+                v.push((format!("same last {w} bytes"), b));
+            }
+        }
+        if n >= 2 {
+            let mut r = k.to_vec();
+            r.rotate_left(1);
+            v.push(("rotated by one byte (same byte multiset)".into(), r));
+            let mut r = k.to_vec();
+            r.reverse();
+            v.push(("reversed (same byte multiset)".into(), r));
+            let mut r = k.to_vec();
+            r.swap(0, n - 1);
+            v.push(("first and last byte swapped".into(), r));
+            let mut h = k.to_vec();
+            h.rotate_left(n / 2);
+            v.push(("halves swapped".into(), h));
+            // same XOR and same sum of all bytes: move one unit between two bytes
+            let mut x = k.to_vec();
+            let (i, j) = (0, n - 1);
+            if x[i] < 255 && x[j] > 0 {
+                x[i] += 1;
+                x[j] -= 1;
+                v.push(("same byte sum".into(), x));
+            }
+        }
+    }
+    for &l in lens {
+        if l == n {
+            continue;
+        }
+        let mut x = k.to_vec();
+        x.resize(l, 0);
+        v.push((format!("other accepted length {l}: truncated / zero-extended"), x));
+        let mut y: Vec<u8> = k.iter().cycle().take(l).copied().collect();
+        if l < n {
+            y = k[n - l..].to_vec();
+        }
+        v.push((format!("other accepted length {l}: repeated / suffix"), y));
+    }
+    v.retain(|(_, x)| x.as_slice() != k);
+    v
+}
+
+fn pair_history(s: &dyn Subject, full: &str, ka: &[u8], kb: &[u8], bs: usize, calls: &AtomicU64) -> Result<(), String> {
+    let b0 = al::dense(bs, 96, 0);
+    let b1 = al::ramp(bs);
+    let batch: Vec<u8> = (0..11).flat_map(|j| al::dense(bs, 97, j)).collect();
+    let ra = reference(full, ka).ok_or("no reference")?;
+    let rb = reference(full, kb).ok_or("no reference")?;
+    let probe = |inst: &dyn Inst, rf: &dyn refmodels::RefCipher, who: &str, when: &str| -> Result<(), String> {
+        for (dir, data, multi, what) in [(Dir::Enc, &b0, false, "encrypt_block(b0)"), (Dir::Dec, &b1, false, "decrypt_block(b1)"), (Dir::Enc, &batch, true, "encrypt_blocks(11)"), (Dir::Dec, &batch, true, "decrypt_blocks(11)")] {
+            let mut got = data.clone();
+            if multi { inst.blocks(dir, &mut got) } else { inst.block(dir, &mut got) }
+            calls.fetch_add(1, Ordering::Relaxed);
+            let mut exp = data.clone();
+            for c in exp.chunks_exact_mut(bs) {
+                if dir == Dir::Enc { rf.encrypt(c) } else { rf.decrypt(c) }
+            }
+            if got != exp {
+                let n = got.len().min(32);
+                return Err(format!("{when}: {who} {what} = {}.. but the reference for that key gives {}..", hex(&got[..n]), hex(&exp[..n])));
+            }
+        }
+        Ok(())
+    };
+    let ia = s.from_slice(ka).map_err(|_| "new_from_slice rejected an accepted key".to_string())?;
+    probe(ia.as_ref(), ra.as_ref(), "instance A", "after new(A)")?;
+    let ib = s.from_slice(kb).map_err(|_| "new_from_slice rejected an accepted key".to_string())?;
+    probe(ib.as_ref(), rb.as_ref(), "instance B", "after new(A), use(A), new(B)")?;
+    probe(ia.as_ref(), ra.as_ref(), "instance A", "after new(A), use(A), new(B), use(B)")?;
+    if let Some(c) = ib.try_clone() {
+        drop(ib);
+        probe(c.as_ref(), rb.as_ref(), "clone of B", "after new(A), use(A), new(B), use(B), use(A), clone(B), drop(B)")?;
+    }
+    // a fresh instance for A's key made while B's state is the most recent
+    let ia2 = s.from_slice(ka).map_err(|_| "new_from_slice rejected an accepted key".to_string())?;
+    drop(ia);
+    probe(ia2.as_ref(), ra.as_ref(), "second instance for A's key", "after ..., new(A) again, drop(first A)")?;
+    Ok(())
+}
+
+pub fn replay_pair(case: &Value) -> Result<(), String> {
+    let subjects = all_subjects();
+    let full = case["subject"].as_str().ok_or("subject")?;
+    let s = subjects.iter().find(|x| x.name() == full).ok_or("subject not in this build")?;
+    let ka = al::unhex(case["key_a"].as_str().ok_or("key_a")?);
+    let kb = al::unhex(case["key_b"].as_str().ok_or("key_b")?);
+    let calls = AtomicU64::new(0);
+    guarded(|| pair_history(s.as_ref(), full, &ka, &kb, s.bs(), &calls)).unwrap_or_else(|p| Err(format!("panic: {p}")))
+}
+
+pub fn run_pairs(ctx: &Ctx, rep: &mut Report) {
+    let subjects = all_subjects();
+    let mut pairs = 0u64;
+    let calls = AtomicU64::new(0);
+    for s in &subjects {
+        if !ctx.wants_s(s.as_ref()) || !super::constructible(s.as_ref()) {
+            continue;
+        }
+        let n = s.name();
+        let base = crate::subjects::base_name(&n);
+        if base.ends_with("Enc") || base.ends_with("Dec") {
+            continue;
+        }
+        if n.starts_with("RC5<") {
+            let (w, r, b) = crate::refmap::parse_rc5(&n).unwrap();
+            if !(r == 12 && (b == 16 || (w == 8 && b == 4))) {
+                continue;
+            }
+        }
+        if reference(&n, &vec![0u8; s.key_lens()[0]]).is_none() {
+            continue;
+        }
+        let lens = s.key_lens();
+        // every accepted length is a centre when there are few; min / KeySize / max otherwise
+        let mut centres: Vec<usize> = if lens.len() <= 5 { lens.clone() } else { vec![lens[0], lens[lens.len() / 2], *lens.last().unwrap()] };
+        if lens.contains(&s.key_size()) && !centres.contains(&s.key_size()) {
+            centres.push(s.key_size());
+        }
+        let others: Vec<usize> = if lens.len() <= 5 { lens.clone() } else { vec![lens[0], lens[1], lens[lens.len() / 2], lens[lens.len() - 2], *lens.last().unwrap()] };
+        for &kl in &centres {
+            for k in [al::dense(kl, 95, 0), al::ramp(kl)] {
+                for (rel, k2) in neighbours(&k, &others) {
+                    for (a, b) in [(&k, &k2), (&k2, &k)] {
+                        pairs += 1;
+                        let r = guarded(|| pair_history(s.as_ref(), &n, a, b, s.bs(), &calls)).unwrap_or_else(|p| Err(format!("panic: {p}")));
+                        if let Err(msg) = r {
+                            let again = guarded(|| pair_history(s.as_ref(), &n, a, b, s.bs(), &calls)).unwrap_or_else(|p| Err(format!("panic: {p}")));
+                            if again.is_ok() {
+                                rep.count("nondeterministic", 1);
+                                continue;
+                            }
+                            rep.violate(Violation {
+                                property: "C15".into(),
+                                subject: n.clone(),
+                                what: "neighbour-key-pair".into(),
+                                case: json!({"kind":"keypair","subject":n,"key_a":hex(a),"key_b":hex(b),"relation":rel}),
+                                expected: "every observation equals the reference model for (key, input)".into(),
+                                observed: msg,
+                                note: "two instances with related keys used alternately; one of them does not behave like a freshly keyed cipher".into(),
+                                index: 0,
+                            });
+                        }
+                    }
+                }
+            }
+        }
+    }
+    rep.evaluations += pairs;
+    rep.distinct_count += pairs;
+    rep.calls += calls.load(Ordering::Relaxed);
+    rep.ref_compared += calls.load(Ordering::Relaxed);
+    rep.count("neighbour_key_pair_histories", pairs);
+}
